@@ -28,3 +28,30 @@ def f2_isolated_vertex(h, viol, ftxt):
         return False
     n = h.params["n"]
     return _has_isolated_vertex(n, _graph_edges(viol["model"]))
+
+
+def _connected(n, edges):
+    adj = {i: set() for i in range(n)}
+    for (i, j), v in edges.items():
+        if v:
+            adj[i].add(j)
+            adj[j].add(i)
+    seen, todo = {0}, [0]
+    while todo:
+        x = todo.pop()
+        for y in adj[x]:
+            if y not in seen:
+                seen.add(y)
+                todo.append(y)
+    return len(seen) == n
+
+
+def f4_disconnected_false_no(h, viol, ftxt):
+    """is_lc_equivalent(mode='deterministic') answers False although a valid local Clifford exists, for a
+    DISCONNECTED first graph (the 'sum of two basis vectors' shortcut when the solution space has dimension >= 5)"""
+    if h.params.get("mode") != "deterministic":
+        return False
+    if not viol["name"].startswith("no-valid-local-Clifford-exists-when-answer-is-no"):
+        return False
+    n = h.params["n"]
+    return not _connected(n, _graph_edges(viol["model"], "A"))
